@@ -107,7 +107,7 @@ def run_prop(res, prop, extra_obligations=1):
     sp = SPEC[prop]
     semi = prop in ("C01", "C02")
     kernels = {"C01": ["semicolon_rule"], "C02": ["semicolon_rule"], "C10": ["whitespace_and_call_options"], "C11": ["quote_choice", "whitespace_and_call_options"]}.get(prop, [])
-    if prop in ("C01", "C02", "C06", "C10"): extra_obligations += 1     # the L0 tie
+    if prop in ("C01", "C02", "C03", "C06", "C10"): extra_obligations += 1     # the L0 tie
     t_ok, t_log = True, ""
     for kname in kernels:               # Tie 1: each kernel the theorems speak about is regenerated from /repo's source
         extra_obligations += 1
@@ -125,7 +125,7 @@ def run_prop(res, prop, extra_obligations=1):
         res.coverage["evaluations"] = res.coverage.get("evaluations", 0) + tot.get("records", 0)
         res.coverage["input_distribution"]["semicolon_rule_tie"] = tot
         res.coverage["kernels_translated"] = ["src/formatters/block.rs :: var_has_parentheses, check_stmt_requires_semicolon -> coq/gen/SemiRule.v (rs2v)"]
-    if prop in ("C01", "C02", "C06", "C10"):
+    if prop in ("C01", "C02", "C03", "C06", "C10"):
         l0, more = l0_tie(res)
         payloads = more + payloads; ok = ok and not more
         res.coverage["evaluations"] = res.coverage.get("evaluations", 0) + l0.get("records", 0)
